@@ -1,15 +1,14 @@
 // U-LINT: opaque stand-ins for types the linter unit never looks into (DESIGN.md 2.2 item 4).
-// Same as prelude/ast_opaque.rs except that `Comparison` is NOT opaque here (the If arm reads `condition.location`):
-// the real `struct Comparison` / `enum ComparisonOp` are sliced from common.rs by units/u_lint.py.
+// Differs from prelude/ast_opaque.rs: Comparison, Expression, Reference and ValueType are NOT opaque here
+// (the real definitions are sliced from common.rs / value_type.rs by units/u_lint.py).
 broadcast use vstd::std_specs::vec::axiom_vec_index_decreases;
 #[verifier::external_body] pub struct Location { _p: u8 }
 impl Clone for Location { #[verifier::external_body] fn clone(&self) -> (r: Self) ensures r == *self { unimplemented!() } }
-#[verifier::external_body] pub struct Expression { _p: u8 }
-#[verifier::external_body] pub struct Reference { _p: u8 }
+// lexer::Location derives PartialEq; needed only because the sliced `impl PartialEq for Identifier` mentions it (never called here)
+impl PartialEq for Location { #[verifier::external_body] fn eq(&self, other: &Self) -> bool { unimplemented!() } }
 #[verifier::external_body] pub struct Builtin { _p: u8 }
 #[verifier::external_body] pub struct Parameter { _p: u8 }
 #[verifier::external_body] pub struct Member { _p: u8 }
-#[verifier::external_body] pub struct ValueType { _p: u8 }
 #[verifier::external_body] pub struct OperandValueType { _p: u8 }
 #[verifier::external_body] pub struct DeclarationFlag { _p: u8 }
 #[verifier::external_body] #[verifier::accept_recursive_types(T)] pub struct EnumSet<T> { _p: core::marker::PhantomData<T> }
